@@ -479,6 +479,51 @@ func genC20Merge(r *Rng) *Plan {
 	return p
 }
 
+// genC20OddArtifact: a hash-less issuer certificate (or request) made by another tool that is valid
+// DER but unusual; children are issued under it and it is re-exported.
+func genC20OddArtifact(r *Rng) *Plan {
+	g := NewHistGen(r, "C20")
+	g.P.Meta["arm"] = "odd-artifact"
+	g.AddForest(ForestOpts{MaxEnts: 4, MaxDepth: 3, Mix: KeyMix{RSA1024: 1, EC: 2, Omit: 6}, MaxExts: 2, KeyIDs: true, Validity: valRelative}, r.Chance(1, 3))
+	kind := Pick(r, oddKinds)
+	g.P.Meta["odd"] = kind
+	var withKids []*EntitySpec
+	for _, e := range g.Ents {
+		if len(g.children(e)) > 0 {
+			withKids = append(withKids, e)
+		}
+	}
+	target := Pick(r, g.Ents)
+	if len(withKids) > 0 && r.Chance(4, 5) {
+		target = Pick(r, withKids)
+	}
+	late := r.Bool()
+	if late {
+		g.Run(DefaultFlags, "setup")
+	}
+	parts := "cert+key"
+	if kind == "csr-empty-subject" {
+		parts = Pick(r, []string{"csr", "cert+csr"})
+	} else if r.Chance(1, 6) {
+		parts = Pick(r, []string{"cert", "cert+csr"})
+	}
+	fp := ForeignParams{Parts: parts, Str: "printable", KeyAlg: target.KeyAlg, P8: "outer", Odd: kind}
+	if keyFamily(target.KeyAlg) == "rsa" {
+		fp.P8 = "null"
+	}
+	g.P.Add(Op{K: "replace-art", Ent: target.ID, Arg: fp.JSON(), Label: "odd:" + kind})
+	if r.Bool() {
+		// force children to be re-issued under it
+		for _, c := range g.children(target) {
+			g.P.Add(Op{K: "del-art", Ent: c.ID})
+		}
+	}
+	g.P.Add(Op{K: "run", Flags: DefaultFlags, Tags: []string{"decide"}})
+	g.P.Add(Op{K: "run", Flags: uint8(r.Intn(32)), Tags: []string{"decide"}})
+	g.P.Add(Op{K: "run", Flags: FlagA, Tags: []string{"decide"}})
+	return g.P
+}
+
 func genC20States(r *Rng) *Plan {
 	base, _ := genC11Base(r)
 	base.Prop = "C20"
@@ -611,7 +656,11 @@ func exploreC20(t *testing.T, seed uint64, idx int, tier string, sink *Sink) {
 	case 3, 4:
 		plan = genC20Hostile(r)
 	case 5:
-		plan = genC20Merge(r)
+		if idx%16 == 5 {
+			plan = genC20Merge(r)
+		} else {
+			plan = genC20OddArtifact(r)
+		}
 	case 6:
 		plan = genC20States(r)
 	default:
@@ -657,6 +706,10 @@ func exploreC20(t *testing.T, seed uint64, idx int, tier string, sink *Sink) {
 	}
 	if plan.Meta["arm"] == "hostile" {
 		w.SigExtra += "h:" + plan.Meta["hostile"]
+	}
+	if plan.Meta["odd"] != "" {
+		w.SigExtra += "odd:" + plan.Meta["odd"]
+		sink.Cell("odd:" + plan.Meta["odd"])
 	}
 	sink.Report(w)
 }
